@@ -982,6 +982,7 @@ var semFixed = []string{
 	`try error("x") catch .`, `try error("x")`, `(try error("x") catch .) + "y"`, `try (1, error("x"), 2) catch "c"`, `[.[]?]`, `.. | numbers`, `[paths]`,
 	`{a: 1, "b": 2, ("c"): 3, "d\(1)": 4}`, `{a: 1 | 2}`, `{a: (1, 2)}`, `1 as $x | 2 as $y | $x - $y - 1`, `[1, 2 as $x | 3, $x]`, `if . then 1 elif 2 then 3 else 4 end`,
 	`.a = 1 | .b |= 2`, `.a += 1 | .a`, `.x //= 3 | .x`, `[.[] | . as $v | try ($v + 1) catch "e"]`, `$opts`, `$q`, `$_args`, `$nope`, `nope`, `1 +`, `)`, ``, `.`,
+	`try (1, error("x"), 2)`, `try error`, `label $out | 1, break $out, 2`, `try (try error("x"))`, `try error("x") | 1`, `(try error("x")), 2`,
 	`def f: 1;`, `import "nonexistent" as x; 1`, `include "nonexistent"; 1`, `1 as $x | 2 | . + $x | -. - 1`, `-(1, 2)`, `[-(1, 2) | -.]`, `[1, 2] | -.[0] - .[1]`, `"\(1, 2)-\(3, 4)"`,
 }
 
@@ -1071,6 +1072,10 @@ func (rn *runner) semReplAll(r *hlib.Rand, nRepl int) {
 			fixedLines = append(fixedLines, p+` | slurp("v`+fmt.Sprint(i)+`")`, `$v`+fmt.Sprint(i), `[$v`+fmt.Sprint(i)+`[]] | length`)
 		}
 	}
+	// S-C11-2: a slurp call inside an `as` body, after other pipeline stages
+	fixedLines = append(fixedLines, `5 as $x | $x + 1 | slurp("b1")`, `$b1`, `5 as $x | $x, 7 | slurp("b2")`, `$b2`,
+		`1 as $x | 2 as $y | [$x, $y] | length | slurp("b3")`, `$b3`, `"abc" as $x | $x | slurp("b4")`, `$b4 | length`,
+		`. as $x | 1 | 2 | slurp("b5")`, `$b5`)
 	chunk(fixedLines, 12, rn.semRepl)
 	for i := 0; i < nRepl; i++ {
 		var lines []string
